@@ -95,6 +95,23 @@ SeqProtoFails(seq, q) ==
                 firstP == IF rest = 0 THEN <<>> ELSE seq[k + 1]
             IN mx[2] = rest /\ mx[3] = lastP /\ mx[4] = rest /\ mx[5] = firstP /\ mx[6] = lastP /\ mx[7] = rest
         THEN {} ELSE {"rest_after_next_differs"})
+  \* q.huge: <<index code, items pulled before, nth(index).is_some(), skip(index).count()>> for indices >= 2^32 -
+  \* far beyond the end of every recorded sequence, so nth() returns nothing and skip() leaves nothing
+  \cup (IF \A j \in 1..Len(q.huge) : q.huge[j][3] = 0 /\ q.huge[j][4] = 0 THEN {} ELSE {"index_beyond_2_32_wraps_into_the_sequence"})
+\* the protocol record a CORRECT iterator over `seq` produces (used by the models, which have no code to observe:
+\* MC_C16 feeds SeqProtoFails with it, so the two definitions are checked against each other)
+SeqProtoOf(seq, stride) ==
+  LET n == Len(seq)
+      At(k) == IF k < n THEN seq[k + 1] ELSE <<>>
+      nw == IF n \div stride <= 4096 THEN n \div stride ELSE 4096
+      Mx(k) == LET rest == IF k < n THEN n - k ELSE 0
+                   lastP == IF rest = 0 THEN <<>> ELSE seq[n]
+                   firstP == IF rest = 0 THEN <<>> ELSE seq[k + 1]
+               IN <<k, rest, lastP, rest, firstP, lastP, rest>>
+  IN [cnt |-> n, last |-> (IF n = 0 THEN <<>> ELSE seq[n]), lo |-> n, hi |-> n, stride |-> stride,
+      walk |-> [j \in 1..nw |-> <<j * stride - 1, At(j * stride - 1)[1], At(j * stride - 1)[2]>>],
+      after |-> <<1, 1>>, k |-> n \div 2, mlo |-> n - n \div 2, mhi |-> n - n \div 2,
+      mixed |-> <<Mx(1), Mx(stride + 1), Mx(n \div 2 + 1), Mx(n)>>, huge |-> <<>>]
 \* membership of a point in a run-encoded set
 InRuns(rs, p) == \E i \in 1..Len(rs) : rs[i][1] = p[2] /\ rs[i][2] <= p[1] /\ p[1] <= rs[i][3]
 \* runs of the row-major enumeration of a set of points S lying inside the rectangle r
